@@ -5,7 +5,9 @@ import PyYetiVerif.Props.C02e
 `colSU_solves`, `colFD_solves`: for the functions the driver runs (`colSU`, `colFD` of
 `Model/FreqSolve.lean`: constructor state, block solves, scatter), with `incrb = "dva"`,
 `rf_disp_only = False`, `Ω ≠ 0`: whatever column is returned satisfies the full-size
-block-diagonal-by-partition equation `partStiff · d = F` on every row, with `v = iΩd`, `a = −Ω²d`.
+block-diagonal-by-partition equation `partStiff · d = F` on every row, with `v = iΩd`, `a = −Ω²d`;
+for `SolveUnc` the rigid-body block is `iΩ B − Ω² M` on the uncoupled path (damped rigid-body modes,
+repaired code) and `−Ω² M` on the coupled path (`ColEnv.rbDamping`).
 Everything is proved except the eigen-decomposition of the coupled elastic block, which stays a
 hypothesis (`hcoup`, the relations of `frfCoupled_solves`).
 `fd_incrb_rows`: the `d[self.rb] = 0` … statements of `FreqDirect.fsolve` touch the rigid-body rows
@@ -101,7 +103,7 @@ theorem colFD_solves (e : ColEnv α) (hz : ∀ x, e.isZero x = true ↔ x = 0)
     (sol : List (Dva α)) (h : colFD e L F w = .ok sol) :
     ∀ r, r < L.n →
       ((List.range L.n).map fun c =>
-        partStiff e.i w e.M e.B e.K [] L.nonrf L.rf r c * (rowOf sol c).d).sum = F r ∧
+        partStiff e.i w e.M e.B e.B e.K [] L.nonrf L.rf r c * (rowOf sol c).d).sum = F r ∧
       (rowOf sol r).v = e.i * w * (rowOf sol r).d ∧ (rowOf sol r).a = -(w * w) * (rowOf sol r).d := by
   have hperm' : (([] : List Nat) ++ L.nonrf ++ L.rf).Perm (List.range L.n) := by simpa using hperm
   have hnd : (L.nonrf ++ L.rf).Nodup := hperm.nodup_iff.2 List.nodup_range
@@ -120,12 +122,12 @@ theorem colFD_solves (e : ColEnv α) (hz : ∀ x, e.isZero x = true ↔ x = 0)
         sol = assemble L.n L.rf vrf [] [] L.nonrf vk →
         ∀ r, r < L.n →
           ((List.range L.n).map fun c =>
-            partStiff e.i w e.M e.B e.K [] L.nonrf L.rf r c * (rowOf sol c).d).sum = F r ∧
+            partStiff e.i w e.M e.B e.B e.K [] L.nonrf L.rf r c * (rowOf sol c).d).sum = F r ∧
           (rowOf sol r).v = e.i * w * (rowOf sol r).d ∧
           (rowOf sol r).a = -(w * w) * (rowOf sol r).d := by
       intro vk hlk hkeq hkva hsol r hr
       subst hsol
-      refine ⟨fsolve_full_solves L.n e.i w e.M e.B e.K F [] L.nonrf L.rf hperm' [] vk vrf rfl
+      refine ⟨fsolve_full_solves L.n e.i w e.M e.B e.B e.K F [] L.nonrf L.rf hperm' [] vk vrf rfl
         hlk.symm hlrf.symm (fun r hr => by cases hr) hkeq hrfeq r hr, ?_⟩
       exact fsolve_full_va L.n e.i w [] L.nonrf L.rf hperm' [] vk vrf rfl hlk.symm hlrf.symm
         (fun x hx => by
@@ -167,6 +169,7 @@ theorem colSU_solves (e : ColEnv α) (hz : ∀ x, e.isZero x = true ↔ x = 0)
     (hmn : e.mNone = true → ∀ r c, e.M r c = if r = c then 1 else 0)
     (hunc : e.unc = true → (∀ r c, r ≠ c → e.M r c = 0 ∧ e.B r c = 0 ∧ e.K r c = 0) ∧
       (∀ r ∈ L.rf, e.K r r ≠ 0) ∧ (∀ r ∈ L.rb, e.M r r ≠ 0) ∧
+      (∀ r ∈ L.rb, -(w * w) * e.M r r + e.i * w * e.B r r ≠ 0) ∧
       ∀ r ∈ L.el, e.i * (e.B r r * w) + e.K r r - e.M r r * (w * w) ≠ 0)
     (hcoup : e.unc = false → ∀ ed, eig = some ed →
       ∃ Uv : Fin st.kdof.length → Fin ed.s → α,
@@ -178,7 +181,7 @@ theorem colSU_solves (e : ColEnv α) (hz : ∀ x, e.isZero x = true ↔ x = 0)
     (sol : List (Dva α)) (h : colSU e st uncReal eig F w = .ok sol) :
     ∀ r, r < L.n →
       ((List.range L.n).map fun c =>
-        partStiff e.i w e.M e.B e.K L.rb L.el L.rf r c * (rowOf sol c).d).sum = F r ∧
+        partStiff e.i w e.M e.rbDamping e.B e.K L.rb L.el L.rf r c * (rowOf sol c).d).sum = F r ∧
       (rowOf sol r).v = e.i * w * (rowOf sol r).d ∧ (rowOf sol r).a = -(w * w) * (rowOf sol r).d := by
   obtain ⟨st', hst', hlay, helr, hE, hN, hmr⟩ := imrb_correct L hrbg helg (!uncReal) e.mNone
   have : st' = st := Option.some.inj (hst'.symm.trans hst)
@@ -203,10 +206,14 @@ theorem colSU_solves (e : ColEnv α) (hz : ∀ x, e.isZero x = true ↔ x = 0)
         (fun hm hne => by
           have := hmr hm (hlay ▸ hne)
           rw [hlay]; simpa using this)
+        (fun _ => by
+          have := rbDampRows_correct L hrbg helg (!uncReal) e.mNone st' hst'
+          rw [hlay]; simpa using this)
         (hlay ▸ hnd2.1) F w hw hinc
         (fun hm r _ c _ => hmn hm r c)
-        (fun _ hu => ⟨fun r _ c _ hne => ((hunc hu).1 r c hne).1,
-          fun r hr => (hunc hu).2.2.1 r (hlay ▸ hr)⟩) vrb hrb
+        (fun hu => ⟨fun r _ c _ hne => ⟨((hunc hu).1 r c hne).1, ((hunc hu).1 r c hne).2.1⟩,
+          fun r hr => (hunc hu).2.2.1 r (hlay ▸ hr),
+          fun r hr => (hunc hu).2.2.2.1 r (hlay ▸ hr)⟩) vrb hrb
       rw [hlay] at hlrb hrbeq
       cases hel : elValsSU e st' eig F w with
       | error m => simp only [hel] at h; cases h
@@ -241,7 +248,7 @@ theorem colSU_solves (e : ColEnv α) (hz : ∀ x, e.isZero x = true ↔ x = 0)
                 subst h1 h2
                 obtain ⟨a, b, c⟩ := elBlockUnc_solves e L.el hnd2.2.1 F w
                   (fun r _ c _ hne => (hunc hu).1 r c hne)
-                  (fun hm r _ => by rw [hmn hm r r]; simp) (hunc hu).2.2.2 v hv
+                  (fun hm r _ => by rw [hmn hm r r]; simp) (hunc hu).2.2.2.2 v hv
                 exact ⟨rfl, a, b, c⟩
           · have hu' : e.unc = false := by simpa using hu
             have hur : uncReal = false := by
@@ -296,7 +303,7 @@ theorem colSU_solves (e : ColEnv α) (hz : ∀ x, e.isZero x = true ↔ x = 0)
         subst hrows
         subst h
         intro r hr
-        refine ⟨fsolve_full_solves L.n e.i w e.M e.B e.K F L.rb L.el L.rf hperm vrb vel vrf
+        refine ⟨fsolve_full_solves L.n e.i w e.M e.rbDamping e.B e.K F L.rb L.el L.rf hperm vrb vel vrf
           hlrb.symm hlel.symm hlrf.symm hrbeq heleq hrfeq r hr, ?_⟩
         exact fsolve_full_va L.n e.i w L.rb L.el L.rf hperm vrb vel vrf hlrb.symm hlel.symm hlrf.symm
           (fun x hx => by
